@@ -646,9 +646,11 @@ def run(check: core.Check) -> None:
     SENS = (("TypeEval.strict1.cfg", "EvalFollowsSpecStrict"), ("TypeEval.strict2.cfg", "OverApproximatesStrict"),
             ("TypeEval.sens.cfg", "EvalFollowsSpec"),
             ("TypeEval.condstrict1.cfg", "StatusFollowsSpecStrict"),
-            ("TypeEval.condsens1.cfg", "EvalFollowsSpec"), ("TypeEval.condsens3.cfg", "EvalFollowsSpec"))
-    if not quick:  # the comparison family's status deviations, and truncation to three elements
-        SENS += (("TypeEval.condstrict2.cfg", "StatusFollowsSpecStrict"), ("TypeEval.condsens2.cfg", "EvalFollowsSpec"))
+            ("TypeEval.condsens1.cfg", "EvalFollowsSpec"), ("TypeEval.condsens3.cfg", "EvalFollowsSpec"),
+            # the code before repo 2abb651 / fdb4789 (no generic_visit; an invalid `or` operand raises)
+            ("TypeEval.condsens4.cfg", "EvalFollowsSpec"), ("TypeEval.condsens5.cfg", "EvalFollowsSpec"))
+    if not quick:  # truncation to three elements
+        SENS += (("TypeEval.condsens2.cfg", "EvalFollowsSpec"),)
     num = 60 if quick else 1500  # behaviours; TLC evaluates EmitDone on every successor it generates
 
     def tlc_job(cfg: str) -> core.TLCResult:
@@ -714,7 +716,9 @@ def run(check: core.Check) -> None:
     check.cov["sensitivity"] = (
         "EvalFollowsSpecStrict and OverApproximatesStrict are violated on the model (the named deviations are real); "
         "with Bug = any_matches (exclude_any ignored in the Impl model) EvalFollowsSpec is violated; on the condition "
-        "families StatusFollowsSpecStrict is violated (the accept/reject deviations are real), and EvalFollowsSpec is "
+        "families StatusFollowsSpecStrict is violated (the remaining accept/reject deviation, the rejected subscript check, is "
+        "real), EvalFollowsSpec is violated with Bug = nogenvisit / noornull (the evaluator before repo 2abb651 / fdb4789: a bare "
+        "expression as a condition is not rejected and raises at the call; an invalid `or` operand raises), and it is "
         "violated with Bug = ver2 (and, thorough tier, ver3: sys.version_info truncated to two / three elements before the comparison) "
         "and Bug = pyeq (literals compared with Python's ==, so that 1, True and an IntEnum member of value 1 coincide)"
     )
